@@ -44,6 +44,8 @@ CLAUSES = {
         "proved [ideal, C11_nodes_elliptic: closed form of the generated function + conic identity]; binary64 searched",
     "node passage (parabolic): r = q(1+s^2) = 2q/(1+cos v), time offset 27.403895 s(s^2+3) q^1.5": "proved [ideal, C11_nodes_parabolic]; binary64 searched",
     "node passage -> Kepler's equation at that time -> true anomaly -omega / 180-omega": "unproved (searched): composition through Epoch arithmetic and the Kepler residual; searched over the whole quantifier (e up to 0.999999, omega 0..360 incl. v = 180 deg) with the tolerance 2*(dv/dM)*(5e-8 deg Kepler residual + rounding of the stored JDE) + 1e-9 deg, dv/dM = (1+e cos v)^2/(1-e^2)^1.5; nothing skipped for the elliptic case.  Parabolic (not in the property text): skipped only at v = 180 deg exactly (point at infinity) and where the passage instant falls outside the years an Epoch can hold (offset ~ tan^3(v/2))",
+    "call sequences: kepler_equation / passage_nodes_* called with an Angle that was used before and then re-set (every input form of Angle.set: float, int, 2/3/4 arguments, tuple, list, 1-list, signed 4-tuple, another Angle, radians=, ra=; set_radians, set_ra, to_positive, in-place operators, set_tolerance) give bit-for-bit the result of a freshly constructed Angle of the same value":
+        "searched (keys kepler-reused-angle, nodes-reused-angle: 32 forms x 5 targets deterministic + 400 random per quick run); model: Angles are immutable values, rad() is a pure function of the stored degrees, so a stale view cannot be expressed - a cache like that makes stage P/G fail (attribute the translator does not know) and this clause supplies the failing input",
     "binary64 rounding of all the above (accuracy near e -> 1, M -> 0)": "unproved (searched with the property's tolerances; correspondence is bit-exact with traced libm)",
 }
 
@@ -159,11 +161,12 @@ PY = "PYTHONPATH=/repo /venv/bin/python -c "
 def search(rng, tier, deep):
     C = load(["Coordinates", "Angle", "Epoch"])
     Co, Angle, Epoch = C["Coordinates"], C["Angle"].Angle, C["Epoch"].Epoch
-    findings, seen = [], set()
+    findings, seen, nkey = [], set(), {}
     stats = {"evaluations": 0, "distinct_nontrivial": 0}
 
     def report(key, what, inp, replay):
-        if key in seen and len(findings) > 40:
+        nkey[key] = nkey.get(key, 0) + 1
+        if nkey[key] > 8:                   # at most 8 findings per key, so that every failing clause is named
             return
         seen.add(key)
         findings.append({"key": key, "what": what, "input": inp,
@@ -232,6 +235,79 @@ def search(rng, tier, deep):
         except Exception as ex:
             report("kepler-raises", "kepler_equation(%r, Angle(10.0)) raises %s" % (e, type(ex).__name__), [repr(e), 10.0],
                    "print(kepler_equation(%r, Angle(10.0)))" % (e,))
+
+    # ---- call sequences: an Angle argument that was USED BEFORE and then re-set must behave like a fresh one
+    # (kepler_equation / the node-passage functions read the Angle through .rad(); a stale cached view of the
+    # old value would make them solve for the previous angle).  Bit-for-bit against a freshly built Angle.
+    def outcome(fn, ang):
+        try:
+            res = fn(ang)
+        except Exception as ex:
+            return ("raises", type(ex).__name__)
+        out = []
+        for x in res:
+            if isinstance(x, Angle): out.append(float(x).hex())
+            elif isinstance(x, Epoch): out.append(x.jde().hex())
+            else: out.append(float(x).hex())
+        return tuple(out)
+
+    def reset_forms(rg):
+        """(python statement on the variable a, ...) covering every input form of Angle.set and the other mutators"""
+        d, m = rg.randint(0, 359), rg.randint(0, 59)
+        sec = rg.choice([0.0, 30.0, round(rg.uniform(0, 59.99), 3)])
+        x = rg.choice([250.5, -77.25, 0.0, 359.75, round(rg.uniform(-359, 359), 6), 725.5, -1000.125])
+        h = round(rg.uniform(0, 23.9), 4)
+        return ["a.set(%r)" % x, "a.set(%d)" % d, "a.set(%d, %d)" % (d, m), "a.set(%d, %d, %r)" % (d, m, sec),
+                "a.set(%d, %d, %r, -1.0)" % (d, m, sec), "a.set((%d, %d, %r))" % (d, m, sec), "a.set([%d, %d, %r])" % (d, m, sec),
+                "a.set((%d, %d))" % (d, m), "a.set([%d, %d])" % (d, m), "a.set((%r,))" % x, "a.set([%r])" % x,
+                "a.set((%d, %d, %r, -1))" % (d, m, sec), "a.set([%d, %d, %r, 1.0])" % (d, m, sec), "a.set(-%d, %d, %r)" % (d, m, sec),
+                "a.set(Angle(%r))" % x, "a.set(%r, radians=True)" % round(x / 60.0, 6), "a.set((%r,), radians=True)" % round(x / 60.0, 6),
+                "a.set(%r, ra=True)" % h, "a.set((%d, %d, %r), ra=True)" % (d % 24, m, sec), "a.set()",
+                "a.set_radians(%r)" % round(x / 60.0, 6), "a.set_ra(%r)" % h, "a.set_ra(%d, %d, %r)" % (d % 24, m, sec),
+                "a.set(-%r); a.to_positive()" % abs(x if x else 12.5), "a.to_positive()",
+                "a += %r" % x, "a -= Angle(%r)" % x, "a *= 2.5", "a /= 3.0", "a %%= %r" % (abs(x) + 1.0), "a **= 2",
+                "a.set_tolerance(1e-6); a.set((%d, %d, %r))" % (d, m, sec)]
+
+    def reuse_case(prev, stmt, target, det):
+        """target: (key, python expression in a, callable)"""
+        key, texpr, fn = target
+        stats["evaluations"] += 1
+        a = Angle(prev)
+        outcome(fn, a)                      # the Angle is used once with its old value
+        env = {"a": a, "Angle": Angle}
+        try:
+            exec(stmt, env)
+        except Exception as ex:
+            return                          # this form is not applicable (e.g. ** of a negative angle): nothing to compare
+        a = env["a"]
+        got = outcome(fn, a)
+        fresh = Angle(float(a))
+        if float(fresh).hex() != float(a).hex():
+            return
+        want = outcome(fn, fresh)
+        stats["distinct_nontrivial"] += 1
+        if got != want:
+            report(key, "a = Angle(%r); %s; %s; %s gives %r, with a fresh Angle(%r) of the same value %r"
+                   % (prev, texpr, stmt, texpr, got, float(a), want), [prev, stmt, texpr],
+                   "a = Angle(%r); r0 = %s; %s; r1 = %s; r2 = %s; show = lambda r: [float(x) if not isinstance(x, Epoch) else x.jde() for x in r]; print(float(a), show(r1), show(r2))"
+                   % (prev, texpr, stmt, texpr, texpr.replace("(a", "(Angle(float(a))", 1).replace(", a)", ", Angle(float(a)))")))
+
+    t_reuse = Epoch(1986, 2, 9.45891)
+    targets = [("kepler-reused-angle", "kepler_equation(0.3, a)", lambda a: Co.kepler_equation(0.3, a)),
+               ("kepler-reused-angle", "kepler_equation(0.96727426, a)", lambda a: Co.kepler_equation(0.96727426, a)),
+               ("nodes-reused-angle", "passage_nodes_elliptic(a, 0.96727426, 17.9400782, Epoch(1986, 2, 9.45891))",
+                lambda a: Co.passage_nodes_elliptic(a, 0.96727426, 17.9400782, t_reuse)),
+               ("nodes-reused-angle", "passage_nodes_elliptic(a, 0.2, 2.5, Epoch(1986, 2, 9.45891), ascending=False)",
+                lambda a: Co.passage_nodes_elliptic(a, 0.2, 2.5, t_reuse, ascending=False)),
+               ("nodes-reused-angle", "passage_nodes_parabolic(a, 1.324502, Epoch(1986, 2, 9.45891))",
+                lambda a: Co.passage_nodes_parabolic(a, 1.324502, t_reuse))]
+    import random as _random
+    det_rng = _random.Random(11)            # deterministic cases first: every form x every target, previous value 10.0
+    for stmt in reset_forms(det_rng):
+        for tg in targets:
+            reuse_case(10.0, stmt, tg, True)
+    for _ in range(3000 if full else 400):   # then random previous values / forms / targets
+        reuse_case(round(rng.uniform(-359, 359), 4), rng.choice(reset_forms(rng)), rng.choice(targets), False)
 
     # ---- speeds, length
     for _ in range(nk // 4):
